@@ -1,0 +1,19 @@
+//go:build verif
+
+package client
+
+import "github.com/truora/minidyn/core"
+
+// VerifTables returns the tables of the client (copied map, taken under the client mutex).
+// Diagnostics for the /verif monitors, build tag "verif".
+func VerifTables(c *Client) map[string]*core.Table {
+	c.mu.Lock()
+	defer c.mu.Unlock()
+
+	out := map[string]*core.Table{}
+	for name, table := range c.tables {
+		out[name] = table
+	}
+
+	return out
+}
